@@ -20,11 +20,11 @@ import (
 // and releases one of them according to the schedule being explored.
 
 type actor struct {
-	id     int
-	gid    uint64
-	resume chan struct{}
-	parked bool
-	at     string
+	id      int
+	gid     uint64
+	resume  chan struct{}
+	parked  bool
+	at      string
 	done    bool
 	adopted bool // a foreign goroutine adopted at a hook: it is "unfinished" only while parked
 	panicV  any
